@@ -29,6 +29,7 @@ CONSTANTS
   PurgeFences = TRUE
   SaveUnderLock = FALSE
   PurgeHoldsShard = TRUE
+  LoadUnderLock = TRUE
   AbsentPurge = FALSE
   Reapplies = FALSE
   Ghost = TRUE
